@@ -23,6 +23,9 @@ open ZnVerif.Properties.C03
 #print axioms parse_block_roundtrip
 #print axioms parse_body_roundtrip
 #print axioms parse_statements_roundtrip
+#print axioms import_lines_recorded
+#print axioms imports_rendered
+#print axioms imports_semicolons_rendered
 #print axioms rendering_unambiguous
 #print axioms comments_are_invisible
 #print axioms parse_statements_roundtrip_comments
